@@ -980,6 +980,12 @@ class Sim:
             if p['ack_proc'] is None:
                 p['ack_proc'] = (pid, t_acc)
                 self.stat('ack_processed')
+                wk = self.by_pid.get(pid)
+                if wk is not None and not wk.alive and wk.reaped:
+                    # the owner was reaped before its acknowledgement was processed,
+                    # whatever it died of (crash, terminate_job, ...)
+                    j.ack_after_reap = True
+                    self.stat('acks_processed_after_reap')
                 if j.kind == 'apply':
                     j.t_acc, j.owner = t_acc, pid
                     if j.cb['accept'] != cb_accept_before + 1:
@@ -1152,6 +1158,15 @@ class Sim:
                 j.lost_mark = None    # report once
                 j.must = 'gaveup'
         for j in self.jobs.values():
+            if j.must == 'term' and j.kind == 'imap' and not self.loss_reported(j):
+                # ordered iterator: the failure of part k shows after parts 0..k-1;
+                # a failure that never shows leaves the job unfinished (final checks)
+                tp = [i for i, p in j.parts.items()
+                      if p['ack_proc'] and self.by_pid[p['ack_proc'][0]].job_terminated]
+                if tp and len(j.yielded) < min(tp) + 1:
+                    j.must = None
+                    self.stat('imap_loss_waits_for_earlier_parts')
+                    continue
             if j.must == 'term' and not self.loss_reported(j) and j.jid in allowed:
                 self.viol({'C08', 'C01'}, 'terminated_job_not_resolved',
                           {'job_kind': j.kind}, job=j.jid)
